@@ -73,11 +73,14 @@ def mechanisms(paths):
     return sorted({generic_path(p) for p, _, _ in paths})
 
 
-def check_case(ctx, case, stratum):
+def check_case(ctx, case, stratum, again=None):
     from hugr import Hugr
     from vf.oracles.observe import child_before_parent, diff, observe
 
-    h, info = build(case)
+    if again:
+        h, info = again[0], {}
+    else:
+        h, info = build(case)
     nodes = list(h)
     holes = bool(nodes) and max(n.idx for n in nodes) + 1 != len(nodes)
     if holes:
@@ -134,6 +137,25 @@ def check_case(ctx, case, stratum):
         ctx.disc(None, "second-roundtrip-raises", type(e).__name__, "succeeds", str(e)[:200],
                  stratum=stratum, case=case)
     info["nodes"] = len(nodes)
+    if not again and not cbp and not unordered:
+        # the HUGR is changed AFTER it has been serialized (and loaded, observed, serialized again ...): a node added,
+        # metadata written, a link added and one removed -- then the whole comparison once more: nothing remembered
+        # from the earlier serializations may survive
+        from hugr import ops, tys
+
+        ctx.count("monitor:changed-after-serialization")
+        extra = h.add_node(ops.Custom("late", tys.FunctionType([tys.Bool], [tys.Bool, tys.Bool]), extension="verif.late"),
+                           h.root, metadata={"late": [1, None]})
+        h.add_link(extra.out(1), extra.inp(0))
+        h.add_order_link(extra, extra)
+        h[nodes[len(nodes) // 2]].metadata["changed-after"] = {"serialization": True}
+        lks = [(s_, t_) for s_, t_ in h.links() if s_.node.idx != extra.idx]
+        if lks:
+            h.delete_link(*lks[len(lks) // 2])
+        if json.loads(h.to_json()) == d1:
+            ctx.disc(None, "serialization-remembered", "to_json() after the HUGR changed", "another document",
+                     "the earlier document", stratum=stratum, case=case)
+        check_case(ctx, case, stratum, again=(h,))
     return info
 
 
